@@ -17,11 +17,10 @@ pred wfLoaded(v interface{}) := typeIs(v, "*pipeline.Pipeline") ==> ifaceVal(v) 
 // Pipeline.HandleWithBeforeAfter (verified under C02): whichever of the two global pipelines is configured is
 // passed on, independently of the other
 func (gf *GlobalFilter) Handle(ctx *context.Context, handler context.Handler)
-  flag frame=unchecked
   requires gf != nil && ctx != nil && context.respOK()
   requires handler-is-a-pipeline: typeIs(handler, "*pipeline.Pipeline") && ifaceVal(handler) != 0 && pipeline.bound(ptr(ifaceVal(handler), "*pipeline.Pipeline").flow)
   requires global-pipelines-are-bound: wfLoaded(gf.beforePipeline.v) && wfLoaded(gf.afterPipeline.v)
-  modifies outResp, outRespTyp, handledBy, handledCount, gfRan, gfMain, gfBefore, gfAfter
+  modifies outResp, outRespTyp, handledBy, handledCount, gfRan, gfMain, gfBefore, gfAfter, allof("context.Context.activeNs"), allof("ghost:github.com/megaease/easegress/pkg/filters.runFilter"), allof("ghost:github.com/megaease/easegress/pkg/filters.runLen"), allof("ghost:github.com/megaease/easegress/pkg/filters.runNS"), allof("ghost:github.com/megaease/easegress/pkg/filters.runResult"), allof("ghost:github.com/megaease/easegress/pkg/object/pipeline.endB"), allof("ghost:github.com/megaease/easegress/pkg/object/pipeline.endM"), allof("ghost:github.com/megaease/easegress/pkg/object/pipeline.runIdx"), allof("ghost:github.com/megaease/easegress/pkg/object/pipeline.segB"), allof("ghost:github.com/megaease/easegress/pkg/object/pipeline.segM")
   ensures the-handler-handles-the-request-once: handledCount == old(handledCount) + 1 && handledBy == ifaceVal(handler)
   ensures an-http-response-left-by-a-pipeline-is-complete: context.respOK()
   ensures the-main-flow-runs-between-the-configured-global-flows: gfRan && gfMain == ifaceVal(handler) && gfBefore == loaded(gf.beforePipeline.v) && gfAfter == loaded(gf.afterPipeline.v)
